@@ -241,7 +241,7 @@ def run_template(c, work):
         lines.append(f"{keys[0]:<24s} = again")
     src, out1, out2 = (os.path.join(work, x) for x in ("t.mdp", "o1.mdp", "o2.mdp"))
     with open(src, "w") as fh:
-        fh.write("\n".join(lines) + "\n")
+        fh.write("\n".join(lines) + ("\n" if c.get("final_newline", True) else ""))
     settings = {keys[i - 1]: f"new{i}" for i in c["set_existing"]}
     for j in range(c["set_new"]):
         settings[f"added_{j}"] = 10 + j
